@@ -166,21 +166,23 @@ func (w *World) probeDrained() string {
 	}
 	w.Stats.OracleEvals["C06"]++
 	o := w.M.Owed
-	if o.pending() > 0 {
-		var kinds []string
-		for k, q := range o.Q {
-			if len(q) > 0 {
-				kinds = append(kinds, fmt.Sprintf("%s:%d", k, len(q)))
+	// items created by the last two blocks cannot have been handed over yet (a proposal is built
+	// on the state before its own block)
+	var kinds []string
+	for k, q := range o.Q {
+		old := 0
+		for _, it := range q {
+			if it.Height <= w.Cmt.Height-2 {
+				old++
 			}
 		}
-		sort.Strings(kinds)
-		w.violate("C06", "owed-items-not-delivered", "not-drained", "after the workload stopped and a fault-free tail of blocks, still owed to the execution layer: %v", kinds)
-		return "not-drained"
+		if old > 0 {
+			kinds = append(kinds, fmt.Sprintf("%s:%d", k, old))
+		}
 	}
-	q, lq := cur.Bitcoin.EthTxQueue, cur.Locking.EthTxQueue
-	if len(q.Deposits)+len(q.PaidWithdrawals)+len(q.RejectedWithdrawals)+len(lq.Rewards)+len(lq.Unlocks) > 0 || q.BlockNumber < cur.Bitcoin.BlockTip {
-		w.violate("C06", "queues-not-drained", "queues", "after a fault-free tail the application's queues still hold items (deposits %d paid %d rejected %d rewards %d unlocks %d, hash cursor %d of %d)",
-			len(q.Deposits), len(q.PaidWithdrawals), len(q.RejectedWithdrawals), len(lq.Rewards), len(lq.Unlocks), q.BlockNumber, cur.Bitcoin.BlockTip)
+	if len(kinds) > 0 {
+		sort.Strings(kinds)
+		w.violate("C06", "owed-items-not-delivered", "not-drained", "after the workload stopped and a fault-free tail of blocks, still owed to the execution layer for more than two blocks: %v", kinds)
 		return "not-drained"
 	}
 	w.probe("queues-drained")
